@@ -100,6 +100,7 @@ func xmodelDoUndo(c *q.Ctx) {
 
 func c01(c *q.Ctx) {
 	zeroOutputTest(c)
+	poolConflictScan(c)
 	poolReload(c)
 	const st = "bcs/ledger/xledger/state::"
 	utxoInverse(c)
